@@ -136,7 +136,8 @@ def linear(r: random.Random, itype: str, ptype: str, k: int, lok: str, hik: str)
     sc: J = {"lo": lim(b[0], lok, k % 2 == 1), "hi": lim(b[1], hik, k % 2 == 0), "num": num,
              "den": den}
     if num[1] == 0 or k % 7 == 0:
-        sc["inv"] = {"v": b[0] if itype in INTS else float(b[0])}
+        mid = b[0] + (b[1] - b[0]) // 2 if itype in INTS else float(b[0] + (b[1] - b[0]) / 2)
+        sc["inv"] = {"v": mid}
     if len(num) == 2 and num[1] == 0 and k % 2:
         sc["num"] = [num[0]]  # slope omitted altogether
     m = {"cat": "LINEAR", "i2p": {"scales": [sc]}}
@@ -196,6 +197,10 @@ def ratfunc(r: random.Random, itype: str, ptype: str, k: int, lok: str, hik: str
     return case("RAT-FUNC", itype, ptype, bits, m, variant, kinds_of(m))
 
 
+def _mid(a: Any, b: Any, itype: str) -> Any:
+    return a + (b - a) // 2 if itype in INTS else float(a + (b - a) / 2)
+
+
 SL_VARIANTS = ["cont-inc", "cont-dec", "disjoint-images", "discontinuous", "mixed-sign", "gaps",
                "overlap", "cont-inc-flat"]
 JUNCTIONS = [("closed", "closed"), ("open", "closed"), ("closed", "open"), ("nointerval", "open"),
@@ -236,7 +241,7 @@ def scalelinear(r: random.Random, itype: str, ptype: str, k: int, nsc: int, vari
                 n0 = int(n0)
             sc["num"], sc["den"] = [n0, n1], ([d] if d != 1 or k % 2 else [])
             if n1 == 0:
-                sc["inv"] = {"v": b[i]}
+                sc["inv"] = {"v": _mid(b[i], b[i + 1], itype)}
         elif variant == "disjoint-images":
             n1 = [1, 2, 3][k % 3] * (-1 if k % 4 == 3 else 1)
             sc["num"], sc["den"] = [i * 10000000 + OFFSETS[k % len(OFFSETS)], n1], []
@@ -247,7 +252,7 @@ def scalelinear(r: random.Random, itype: str, ptype: str, k: int, nsc: int, vari
             num, den = _coef(r, ptype, k * 7 + i * 3 + 1)
             sc["num"], sc["den"] = num, den
             if num[1] == 0:
-                sc["inv"] = {"v": b[i]}
+                sc["inv"] = {"v": _mid(b[i], b[i + 1], itype)}
         scales.append(sc)
     m = {"cat": "SCALE-LINEAR", "i2p": {"scales": scales}}
     return case("SCALE-LINEAR", itype, ptype, bits, m, f"{variant}/{nsc}", kinds_of(m))
